@@ -22,10 +22,18 @@ pub open spec fn parse_post(range: Option<&HeaderValue>, len: u64, res: Resolved
     parse_spec(hv_str(range), len, res is None, res is NotSatisfiable, match res { ResolvedRanges::Satisfiable(v) => Some(v@), _ => None })
 }
 
-//@fn src/range.rs :: fn parse_pos props=C03,C13 implicit=C13 rules=R20 missing=skip
+/// `1*DIGIT` of any length; a value beyond 64 bits is represented by u64::MAX (it is beyond every entity length, and
+/// `resolve` cannot tell the two apart: lemma_sat_resolve).
+pub open spec fn sat(n: nat) -> u64 { if n <= u64::MAX { n as u64 } else { u64::MAX } }
+pub open spec fn pos_sat(s: Seq<u8>) -> Option<u64> { if all_digits(s) { Some(sat(dec(s))) } else { None } }
+
+//@fn src/range.rs :: fn parse_pos props=C03,C13 implicit=C13 rules=R10,R20 missing=skip
 fn parse_pos(s: Str) -> (r: Option<u64>)
-    ensures /*@C03 #positions_are_digits_only*/ r == sp_pos(s),
+    ensures /*@C03 #positions_are_1_digit_of_any_length*/ r == pos_sat(s.b()),
 //@body
+//@ loop 1: invariant i_ <= digits@.len(), digits@ == s.b(), forall|i: int| 0 <= i < i_ ==> is_digit(#[trigger] digits@[i]), /*@C03 #inv_value_of_digits_so_far*/ pos == sat(dec(digits@.subrange(0, i_ as int))), decreases digits@.len() - i_,
+//@ after "i_ += 1;": proof { assert(digits@.subrange(0, i_ as int).drop_last() =~= digits@.subrange(0, i_ - 1)); }
+//@ before "Some(pos)": proof { assert(digits@.subrange(0, i_ as int) =~= digits@); }
 //@end
 
 //@fn src/range.rs :: fn parse props=C02,C03,C13 implicit=C03,C13 rules=R10,R16,R19,R20,R7,R27,R29
@@ -34,12 +42,12 @@ pub fn parse(range: Option<&HeaderValue>, len: u64) -> (res: ResolvedRanges)
     ensures
         /*@C03,C02 #rfc7233_resolution*/ parse_post(range, len, res),
 //@body
-//@ before "let mut ranges:": let ghost es = sp_split(bytes, ',');
+//@ before "let mut ranges:": proof { reveal_strlit("bytes="); } let ghost es = sp_split(bytes, ','); proof { assert(is_ascii(bytes.b())); lemma_split_ascii(bytes.b(), 0x2cu8); assert(bytes.b() =~= range.b().subrange(6, range.b().len() as int)); }
 //@ loop 1: invariant it_.rest@.len() <= es.len(), it_.rest@ =~= es.subrange(es.len() - it_.rest@.len(), es.len() as int),
 //@ | /*@C03 #inv_all_elements_lex*/ all_lex(es, es.len() - it_.rest@.len()), /*@C02,C03 #inv_ranges_are_rfc_selection*/ view_ranges(ranges@) =~= sel(es, es.len() - it_.rest@.len(), len),
 //@ | decreases it_.rest@.len(),
 //@ after "loop {": let ghost k0 = es.len() - it_.rest@.len(); proof { if it_.rest@.len() > 0 { assert(it_.rest@[0] == es[k0]); } } let ghost rg0 = ranges@;
-//@ after "else { break };": proof { assert(r == es[k0]); assert(it_.rest@ =~= es.subrange(k0 + 1, es.len() as int)); }
+//@ after "else { break };": proof { assert(r == es[k0]); assert(it_.rest@ =~= es.subrange(k0 + 1, es.len() as int)); assert(is_ascii(split_b(bytes.b(), 0x2cu8)[k0])); lemma_trim_ascii(r.b(), is_ows()); lemma_first_at(trim_b(r.b(), is_ows()), 0, 0x2du8); lemma_first_at(trim_start_b(r.b(), is_ows()), 0, 0x2du8); }
 //@ after "ranges.push((len - last)..len);": proof { assert(view_ranges(ranges@) =~= view_ranges(rg0).push(((len - last) as int, len as int))); }
 //@ after "ranges.push(first..end);": proof { assert(view_ranges(ranges@) =~= view_ranges(rg0).push((first as int, end as int))); }
 //@ before "if !ranges.is_empty()": proof { assert(it_.rest@.len() == 0); assert(view_ranges(ranges@).len() == ranges@.len()); }
@@ -54,13 +62,13 @@ pub proof fn lemma_parse_ranges_wf(range: Option<&HeaderValue>, len: u64, res: R
         /*@C03 #absent_header_is_none*/ range.is_none() ==> res is None,
 {
     if let ResolvedRanges::Satisfiable(v) = res {
-        if let Some(h) = hv_str(range) { if let Some(bytes) = sp_strip_prefix(h, "bytes="@) {
-            let es = sp_split(bytes, ',');
+        if let Some(h) = hv_str(range) {
+            let es = sp_split(mk(h.b().subrange(6, h.b().len() as int)), ',');
             lemma_sel_wf(es, es.len() as int, len);
             assert forall|j: int| 0 <= j < v@.len() implies (#[trigger] v@[j]).start < v@[j].end && v@[j].end <= len by {
                 assert(view_ranges(v@)[j] == sel(es, es.len() as int, len)[j]);
             }
-        } }
+        }
     }
 }
 //@endlemma
